@@ -18,6 +18,7 @@ RULE = ("inputs: every example file lasio can read and write (x 3 writer option 
 ASSUMPTIONS = [
     "inputs that lasio cannot read, or cannot write the first time, are counted as rejected (outside the property)",
     "the same read options (mnemonic_case) and writer options are used in every cycle",
+    "objects whose ~Version states WRAP twice written with wrap=True (open finding D49) are excluded by construction and counted; "
     "text samples holding both quote characters (open finding D41) are excluded by construction and counted; the "
     "example-corpus cases and the stored replay still report it",
 ]
@@ -72,6 +73,12 @@ def oracle(case):
         out.cls("excluded:text-sample-digit-hyphen-or-comma-digit")
         if "file" not in src and not case.get("force"):
             return out
+    twice_wrapped = steering_twice_and_wrapped(las0, opts)
+    if twice_wrapped:
+        out.excluded = True  # open finding D49
+        out.cls("excluded:WRAP-stated-twice-and-output-wrapped")
+        if "file" not in src and not case.get("force"):
+            return out
     if text_with_blanks(las0):
         out.cls("text-sample-with-blanks")
     feats = features(las0, opts)
@@ -103,7 +110,7 @@ def oracle(case):
         ck = canon.from_las(rk_las)
         d = canon.diff(ck, c1, names=("cycle%d" % k, "cycle1"))
         if d:
-            out.fail("drift|%s|%s" % (d[0][0], cause(d, c1, ck, tag)), "cycle %d differs from cycle 1 (opts=%r)\n%s\n%s\n--- text cycle 1 ---\n%s\n--- text cycle %d ---\n%s"
+            out.fail("wrapped-output-with-WRAP-stated-twice-reread-as-unwrapped" if twice_wrapped else "drift|%s|%s" % (d[0][0], cause(d, c1, ck, tag)), "cycle %d differs from cycle 1 (opts=%r)\n%s\n%s\n--- text cycle 1 ---\n%s\n--- text cycle %d ---\n%s"
                      % (k, opts, canon.show(d), inputs.describe(src)[:400], t1[:2000], k, tk[:2000]))
             return out
         r_prev, t1 = rk_las, tk
@@ -119,6 +126,18 @@ def numeric_unit(las):
             if str(it.unit).isdigit() and (str(it.value) != "" or str(it.descr) != ""):
                 return True
     return False
+
+
+def steering_twice_and_wrapped(las, opts):
+    """~Version holds two items called WRAP and the output is wrapped: the reader finds neither of the two (a name held twice
+    is numbered WRAP:1/WRAP:2) and reads the wrapped data as one depth step per line (open finding D49)."""
+    if not opts.get("wrap"):
+        return False
+    try:
+        n = sum(1 for it in las.version if str(it.original_mnemonic).upper() == "WRAP")
+    except Exception:  # noqa
+        return False
+    return n >= 2
 
 
 def text_with_blanks(las):
